@@ -478,6 +478,10 @@ class Builder:
                 continue
             if kind == "oneof":
                 oname = r.choice(["pick", "choice", "variant", "source"]) + str(len(real))
+                if r.random() < (0.6 if self.flavor.get("underscore_oneof") else 0.25):
+                    # a DECLARED oneof may start with an underscore (legal); only protoc's synthetic ones are `_<field>`
+                    oname = "_legacy_" + oname
+                    self.features.add("oneof-named-with-leading-underscore")
                 for _ in range(r.choice([1, 2, 2, 3])):
                     f = pb.field.add()
                     f.name, f.number, f.label = fresh_name(), fresh_number(), F.LABEL_OPTIONAL
